@@ -142,6 +142,14 @@ fn handle(v: &Value) -> Value {
         }
         "merge" => json!({ "ok": verif::merge(s(v, "old").to_owned(), s(v, "new").to_owned()) }),
         "hist" => run_history(v),
+        "chars" => {
+            let rows: Vec<Value> = v.get("cps").and_then(Value::as_array).expect("cps").iter().map(|cp| {
+                let c = char::from_u32(cp.as_u64().unwrap() as u32).expect("char");
+                json!([cp, c.is_uppercase(), c.is_alphanumeric(), c.is_numeric(),
+                       c.to_string().to_uppercase(), c.to_string().to_lowercase()])
+            }).collect();
+            json!({ "ok": rows })
+        }
         "consts" => json!({ "ok": { "NOTE": verif::NOTE, "DECLARATION_START": verif::DECLARATION_START,
                                     "esm": cfg!(feature = "import-esm"),
                                     "default_out_dir": lossy(verif::default_out_dir()) } }),
